@@ -95,9 +95,17 @@ def install_axioms(e: Exec, lemma_results=None):
         e.ctx.axioms.append(e.eval_clause(st, cl, {}))
     if e.ctx.finite:
         # the axioms must be satisfiable inside the finite scope, otherwise every finite-scope answer is vacuous
+        # (a cardinality question: recursive spec functions are kept opaque for this check even when a lemma unfolds them)
         s = z3.Solver()
         s.set('timeout', 20000)
-        for a in e.ctx.axioms:
+        guard = e.ctx.axioms
+        if getattr(e, 'reveal_all', False):
+            e.reveal_all = False
+            try:
+                guard = [e.eval_clause(st, cl, {}) for cl in e.R.axioms]
+            finally:
+                e.reveal_all = True
+        for a in guard:
             s.add(a)
         if s.check() == z3.unsat:
             raise RuntimeError('spec axioms are unsatisfiable in the finite scope (enlarge R.scope)')
